@@ -41,6 +41,12 @@ func runC03(c *eng.Ctx, tier string) {
 	c03OpenReadOnly(c, k)
 	c03Wire(c, k)
 	c03LoadedState(c, k, "R-C03-5")
+	// R-C03-6: what the file holds equals what is served only if a failed save
+	// is rolled back exactly (C04) and mutations and their saves are serialised
+	// by the exclusive lock (C14): two saves that interleave can persist the
+	// older image last
+	includeOnly(c, "R-C03-6", func(sc *eng.Ctx) { runC04(sc, "quick") }, "R-C04-3")
+	includeOnly(c, "R-C03-6", func(sc *eng.Ctx) { runC14(sc, "quick") }, "R-C14-1")
 }
 
 // R-C03-1
